@@ -100,8 +100,14 @@ def run_case(case):
         left, right, bottom, top = bx
         fn = splineref.fn(fam, False)
         kw = {"left": left, "right": right, "bottom": bottom, "top": top}
+    mbw = 1e-3
+    if fam != "linear" and case["seed"] % 3 == 0:
+        # non-default, unequal bin floors (their product with the bin count must stay <= 1)
+        mbw = [0.02, 0.05, 0.004][case["seed"] % 7 % 3] if K <= 10 else 1e-3
+        mbh = [0.01, 0.03, 0.06][case["seed"] % 5 % 3]
+        kw["min_bin_width"], kw["min_bin_height"] = mbw, mbh
     wx, wy = right - left, top - bottom
-    xk = splineref.knots(fam, params, left, right, bottom, top, tails=tails)["x"].to(dtype)
+    xk = splineref.knots(fam, params, left, right, bottom, top, tails=tails, min_bin_width=mbw)["x"].to(dtype)
     boxkind = "tails" if tails else ("square" if abs(wx - wy) < 1e-12 and abs(left - bottom) < 1e-12 else "nonsquare")
 
     def call(x, inverse):
